@@ -272,6 +272,15 @@ structure Sib (c0 : Cl) (e : Ev) : Prop where
   foreign : (e.sender == c0.id) = false
   ts : e.ts ≠ 0
 
+/-- a commit created in the parent state (foreign sibling or the client's own) -/
+structure Com (c0 : Cl) (e : Ev) : Prop where
+  path : e.path = c0.g.path
+  kind : ∃ b sw, e.kind = .commit b sw
+  ts : e.ts ≠ 0
+
+theorem Sib.com {c0 : Cl} {e : Ev} (h : Sib c0 e) : Com c0 e :=
+  ⟨h.path, by obtain ⟨b, sw, hk, _⟩ := h.kind; exact ⟨b, sw, hk⟩, h.ts⟩
+
 /-- the state after applying sibling `a` on the parent state -/
 def childG (c0 : Cl) (a : Ev) : GState := syncRec (ensureSecret (mergeCommit c0.maxPast (gP c0) a))
 
@@ -280,12 +289,12 @@ theorem mergeCommit_path (mp : Nat) (g : GState) (e : Ev) (b : Body) (sw : List 
   unfold mergeCommit; rw [hk]
   cases b <;> simp [applyBody]
 
-theorem childG_facts (c0 : Cl) (hb : Base c0) (a : Ev) (hs : Sib c0 a) :
+theorem childG_facts (c0 : Cl) (hb : Base c0) (a : Ev) (hs : Com c0 a) :
     (childG c0 a).path = c0.g.path ++ [a.n] ∧
     alookup (epochOf c0.g.path + 1) (childG c0 a).secrets = some (c0.g.path ++ [a.n]) ∧
     alookup (epochOf c0.g.path) (childG c0 a).secrets = some c0.g.path ∧
     (childG c0 a).recEpoch = epochOf c0.g.path + 1 := by
-  obtain ⟨b, sw, hk, _⟩ := hs.kind
+  obtain ⟨b, sw, hk⟩ := hs.kind
   obtain ⟨hp, hsec⟩ := mergeCommit_path c0.maxPast (gP c0) a b sw hk
   rw [gP_path] at hp
   have hnone : alookup (epochOf (mergeCommit c0.maxPast (gP c0) a).path) (mergeCommit c0.maxPast (gP c0) a).secrets = none := by
@@ -296,7 +305,7 @@ theorem childG_facts (c0 : Cl) (hb : Base c0) (a : Ev) (hs : Sib c0 a) :
   refine ⟨trivial, by simp [alookup_ainsert_self], ?_, trivial⟩
   rw [alookup_ainsert_ne _ _ _ _ (by omega)]; exact gP_sec0 c0 hb
 
-theorem childG_stable (c0 : Cl) (hb : Base c0) (a : Ev) (hs : Sib c0 a) :
+theorem childG_stable (c0 : Cl) (hb : Base c0) (a : Ev) (hs : Com c0 a) :
     ensureSecret (childG c0 a) = childG c0 a ∧ syncRec (childG c0 a) = childG c0 a := by
   obtain ⟨h1, h2, _, _⟩ := childG_facts c0 hb a hs
   constructor
@@ -306,7 +315,7 @@ theorem childG_stable (c0 : Cl) (hb : Base c0) (a : Ev) (hs : Sib c0 a) :
 theorem outerOpens_parent (c0 : Cl) (hb : Base c0) (e : Ev) (hp : e.path = c0.g.path) : outerOpens (gP c0) e = true := by
   simp [outerOpens, gP_path, gP_sec0 c0 hb, hp]
 
-theorem outerOpens_child (c0 : Cl) (hb : Base c0) (a e : Ev) (hs : Sib c0 a) (hp : e.path = c0.g.path) :
+theorem outerOpens_child (c0 : Cl) (hb : Base c0) (a e : Ev) (hs : Com c0 a) (hp : e.path = c0.g.path) :
     outerOpens (childG c0 a) e = true := by
   obtain ⟨h1, h2, h3, _⟩ := childG_facts c0 hb a hs
   simp only [outerOpens, h1, epochOf_snoc, h2, Bool.or_eq_true, List.any_eq_true]
@@ -413,7 +422,7 @@ theorem apply_parent (c0 : Cl) (hb : Base c0) (retry : Cl → Option (Cl × Res)
     rw [drop_snoc _ _ _ hlen, List.drop_drop]
     rfl
   · have hep : epochOf (syncRec (ensureSecret (mergeCommit (withSecret c).maxPast (withSecret c).g e))).path = epochOf c0.g.path + 1 := by
-      rw [hchild, (childG_facts c0 hb e hs).1, epochOf_snoc]
+      rw [hchild, (childG_facts c0 hb e hs.com).1, epochOf_snoc]
     simp only [setRec, hep, rec2]
     rfl
 
@@ -502,9 +511,9 @@ theorem deliverN_once (f nx : Nat) (c : Cl) (e : Ev) : ∃ retry, deliverN f nx 
 
 /-- common to the three child situations: the wrong-epoch handler runs on the unchanged client -/
 theorem child_wrong (c0 : Cl) (hb : Base c0) (retry : Cl → Option (Cl × Res)) (nx : Nat) (a e : Ev) (c : Cl)
-    (hf : CForm c0 a c) (ha : Sib c0 a) (hs : Sib c0 e) :
+    (hf : CForm c0 a c) (ha : Com c0 a) (hs : Com c0 e) :
     step1 retry nx c e = wrongEpochCommit retry c e (epochOf c0.g.path) := by
-  obtain ⟨b, sw, hk, _⟩ := hs.kind
+  obtain ⟨b, sw, hk⟩ := hs.kind
   have hst := (childG_stable c0 hb a ha).1
   have hw : withSecret c = c := withSecret_eq c (by rw [hf.g]; exact hst)
   have hpath : c.g.path = c0.g.path ++ [a.n] := by rw [hf.g]; exact (childG_facts c0 hb a ha).1
@@ -513,19 +522,19 @@ theorem child_wrong (c0 : Cl) (hb : Base c0) (retry : Cl → Option (Cl × Res))
 
 /-- situation 2b: at child `a`, a worse sibling gets a Failed record; nothing else changes -/
 theorem child_worse (c0 : Cl) (hb : Base c0) (retry : Cl → Option (Cl × Res)) (nx : Nat) (a e : Ev) (c : Cl)
-    (hf : CForm c0 a c) (ha : Sib c0 a) (hs : Sib c0 e) (hr : getRec c e.n = none)
+    (hf : CForm c0 a c) (ha : Com c0 a) (hs : Sib c0 e) (hr : getRec c e.n = none)
     (hw : klt (key e) (key a) = false) :
     CForm c0 a (deliverOnce retry nx c e).1 ∧ (deliverOnce retry nx c e).1.recs = ainsert e.n (rec3 c0) c.recs := by
   have hb' : isBetter c (epochOf c0.g.path) e = false := by rw [isBetter_child c0 hb a e c hf ha.ts]; exact hw
   have hre : c.g.recEpoch = epochOf c0.g.path + 1 := by rw [hf.g]; exact (childG_facts c0 hb a ha).2.2.2
-  rw [deliverOnce_norec _ _ _ _ hr, child_wrong c0 hb retry nx a e c hf ha hs]
+  rw [deliverOnce_norec _ _ _ _ hr, child_wrong c0 hb retry nx a e c hf ha hs.com]
   simp only [wrongEpochCommit, hb', Bool.false_eq_true, if_false, notBetterResult, hr, failUnprocessable, recordFailure, hre]
   refine ⟨⟨hf.id, hf.ret, hf.mp, hf.hg, hf.g, hf.mgr⟩, ?_⟩
   simp [setRec, rec3]
 
 /-- situation 2c: at child `a`, `a` itself again (its record says ProcessedCommit): nothing changes -/
 theorem child_same (c0 : Cl) (hb : Base c0) (retry : Cl → Option (Cl × Res)) (nx : Nat) (a : Ev) (c : Cl)
-    (hf : CForm c0 a c) (ha : Sib c0 a) (hr : getRec c a.n = some (rec2 c0)) :
+    (hf : CForm c0 a c) (ha : Com c0 a) (hr : getRec c a.n = some (rec2 c0)) :
     (deliverOnce retry nx c a).1 = c := by
   have hb' : isBetter c (epochOf c0.g.path) a = false := by rw [isBetter_child c0 hb a a c hf ha.ts]; exact klt_irrefl _
   rw [deliverOnce_rec2 _ _ _ _ _ hr rfl, child_wrong c0 hb retry nx a a c hf ha ha]
@@ -537,7 +546,7 @@ theorem child_same (c0 : Cl) (hb : Base c0) (retry : Cl → Option (Cl × Res)) 
 
 /-- situation 2a: at child `a`, a better sibling: rollback (a's record → EpochInvalidated), then it is applied -/
 theorem child_better (c0 : Cl) (hb : Base c0) (f nx : Nat) (a e : Ev) (c : Cl)
-    (hf : CForm c0 a c) (ha : Sib c0 a) (hs : Sib c0 e) (hr : getRec c e.n = none)
+    (hf : CForm c0 a c) (ha : Com c0 a) (hs : Sib c0 e) (hr : getRec c e.n = none)
     (hw : klt (key e) (key a) = true) :
     CForm c0 e (deliverN (f + 1) nx c e).1 ∧
     ∀ n, getRec (deliverN (f + 1) nx c e).1 n =
@@ -549,7 +558,7 @@ theorem child_better (c0 : Cl) (hb : Base c0) (f nx : Nat) (a e : Ev) (c : Cl)
   have happ := apply_parent c0 hb retry' nx c1 e hp1 hs hr1
   have heq : deliverN (f + 1) nx c e = deliverOnce retry' nx c1 e := by
     show deliverOnce (fun c1 => some (deliverN f nx c1 e)) nx c e = _
-    rw [deliverOnce_norec _ _ _ _ hr, child_wrong c0 hb _ nx a e c hf ha hs]
+    rw [deliverOnce_norec _ _ _ _ hr, child_wrong c0 hb _ nx a e c hf ha hs.com]
     simp only [wrongEpochCommit, hb', if_true, hrb, hret]
   rw [heq]
   refine ⟨happ.1, ?_⟩
@@ -632,13 +641,13 @@ theorem rel_step (c0 : Cl) (hb : Base c0) (S : List Ev) (hS : Sibs c0 S) (c : Cl
         have : a = e := hS.inj a haS e he (Or.inr (hka.trans hsame))
         subst this
         obtain ⟨retry, hd⟩ := deliverN_once 3 nx c a
-        rw [fdeliver_same hbl (by rw [hap, hsame]), deliver, hd, child_same c0 hb retry nx a c hcf hsa hra]
+        rw [fdeliver_same hbl (by rw [hap, hsame]), deliver, hd, child_same c0 hb retry nx a c hcf hsa.com hra]
         exact h
       · have hr := h.fresh e he hbl (by rw [hap]; intro x; exact hsame (Option.some.inj x))
         have hne : a ≠ e := fun x => hsame (by rw [← hka, x])
         by_cases hlt : klt (key e) ka = true
         · -- better: rollback and apply
-          obtain ⟨hcf', hrec'⟩ := child_better c0 hb 2 nx a e c hcf hsa hse hr (by rw [hka]; exact hlt)
+          obtain ⟨hcf', hrec'⟩ := child_better c0 hb 2 nx a e c hcf hsa.com hse hr (by rw [hka]; exact hlt)
           rw [fdeliver_better hbl hap hsame hlt]
           show Rel c0 S (deliverN 3 nx c e).1 _
           have hnn : ∀ e' ∈ S, key e' ≠ key e → e'.n ≠ e.n :=
@@ -671,7 +680,7 @@ theorem rel_step (c0 : Cl) (hb : Base c0) (S : List Ev) (hS : Sibs c0 S) (c : Cl
         · -- worse: Failed record
           have hlt' : klt (key e) (key a) = false := by rw [hka]; simpa using hlt
           obtain ⟨retry, hd⟩ := deliverN_once 3 nx c e
-          obtain ⟨hcf', hrecs⟩ := child_worse c0 hb retry nx a e c hcf hsa hse hr hlt'
+          obtain ⟨hcf', hrecs⟩ := child_worse c0 hb retry nx a e c hcf hsa.com hse hr hlt'
           rw [fdeliver_worse hbl hap hsame hlt, deliver, hd]
           have hother : ∀ e' ∈ S, key e' ≠ key e → getRec (deliverOnce retry nx c e).1 e'.n = getRec c e'.n := by
             intro e' he' hk
@@ -705,6 +714,467 @@ theorem rel_run (c0 : Cl) (hb : Base c0) (S : List Ev) (hS : Sibs c0 S) (nx : Na
     intro c st h hi hl
     simp only [List.foldl_cons, List.map_cons, frun]
     exact ih _ _ (rel_step c0 hb S hS c st nx h hi e (hl e List.mem_cons_self)) (finv_deliver st _ hi)
+      (fun x hx => hl x (List.mem_cons_of_mem _ hx))
+
+
+/-! ## the fork machine with the client's own commit among the siblings
+
+  The own commit is never recorded as Failed: offered while a better sibling is applied it is answered
+  from its ProcessedCommit record (`return_own_commit`) and nothing changes. -/
+
+def fdeliver2 (own : Key) (c : FState) (s : Key) : FState :=
+  if s ∈ c.blocked then c else
+  match c.applied with
+  | none => { c with applied := some s }
+  | some a =>
+    if a = s then c
+    else if klt s a then { applied := some s, blocked := a :: c.blocked }
+    else if s = own then c
+    else { c with blocked := s :: c.blocked }
+
+theorem fdeliver2_foreign (own : Key) (c : FState) (s : Key) (h : s ≠ own) : fdeliver2 own c s = fdeliver c s := by
+  by_cases hb : s ∈ c.blocked
+  · simp [fdeliver2, fdeliver, hb]
+  · cases ha : c.applied with
+    | none => simp [fdeliver2, fdeliver, hb, ha]
+    | some a => by_cases e : a = s <;> by_cases hl : klt s a = true <;> simp [fdeliver2, fdeliver, hb, ha, e, hl, h]
+
+theorem fdeliver2_own_worse {own : Key} {c : FState} {a : Key} (h : ¬ own ∈ c.blocked) (ha : c.applied = some a)
+    (e : a ≠ own) (hl : ¬ klt own a = true) : fdeliver2 own c own = c := by
+  simp [fdeliver2, h, ha, e, hl]
+
+theorem fdeliver2_cases (own : Key) (c : FState) (s : Key) :
+    fdeliver2 own c s = fdeliver c s ∨
+    (fdeliver2 own c s = c ∧ s = own ∧ ¬ s ∈ c.blocked ∧ ∃ a, c.applied = some a ∧ a ≠ s ∧ klt a s = true) := by
+  by_cases h : s = own
+  · subst h
+    by_cases hb : s ∈ c.blocked
+    · left; simp [fdeliver2, fdeliver, hb]
+    · cases ha : c.applied with
+      | none => left; simp [fdeliver2, fdeliver, hb, ha]
+      | some a =>
+        by_cases e : a = s
+        · left; simp [fdeliver2, fdeliver, hb, ha, e]
+        · by_cases hl : klt s a = true
+          · left; simp [fdeliver2, fdeliver, hb, ha, e, hl]
+          · right
+            refine ⟨by simp [fdeliver2, hb, ha, e, hl], rfl, hb, a, rfl, e, ?_⟩
+            rcases klt_total e with x | x
+            · exact x
+            · exact absurd x hl
+  · left; exact fdeliver2_foreign own c s h
+
+def frun2 (own : Key) (c : FState) (l : List Key) : FState := l.foldl (fdeliver2 own) c
+
+theorem finv_deliver2 (own : Key) (c : FState) (s : Key) (h : FInv c) : FInv (fdeliver2 own c s) := by
+  rcases fdeliver2_cases own c s with x | x
+  · rw [x]; exact finv_deliver c s h
+  · rw [x.1]; exact h
+
+theorem finv_run2 (own : Key) (c : FState) (l : List Key) (h : FInv c) : FInv (frun2 own c l) := by
+  induction l generalizing c with
+  | nil => exact h
+  | cons s l ih => exact ih _ (finv_deliver2 own c s h)
+
+/-- delivered keys are applied, blocked, or (the own key only) beaten by the applied one -/
+def Covered (own : Key) (c : FState) (s : Key) : Prop :=
+  c.applied = some s ∨ s ∈ c.blocked ∨ (s = own ∧ ∃ a, c.applied = some a ∧ klt a s = true)
+
+theorem covered_step (own : Key) (c : FState) (s y : Key) (h : Covered own c s) : Covered own (fdeliver2 own c y) s := by
+  rcases fdeliver2_cases own c y with x | x
+  · rw [x]
+    by_cases hb : y ∈ c.blocked
+    · rw [fdeliver_blocked hb]; exact h
+    · cases ha : c.applied with
+      | none =>
+        rw [fdeliver_none hb ha]
+        rcases h with h | h | ⟨_, a, h, _⟩
+        · rw [ha] at h; cases h
+        · exact Or.inr (Or.inl h)
+        · rw [ha] at h; cases h
+      | some a =>
+        by_cases e : a = y
+        · subst e; rw [fdeliver_same hb ha]; exact h
+        · by_cases hl : klt y a = true
+          · rw [fdeliver_better hb ha e hl]
+            rcases h with h | h | ⟨ho, a', h, hlt⟩
+            · rw [ha] at h; cases h; exact Or.inr (Or.inl List.mem_cons_self)
+            · exact Or.inr (Or.inl (List.mem_cons_of_mem _ h))
+            · rw [ha] at h; cases h
+              exact Or.inr (Or.inr ⟨ho, y, rfl, klt_trans hl hlt⟩)
+          · rw [fdeliver_worse hb ha e hl]
+            rcases h with h | h | ⟨ho, a', h, hlt⟩
+            · exact Or.inl h
+            · exact Or.inr (Or.inl (List.mem_cons_of_mem _ h))
+            · exact Or.inr (Or.inr ⟨ho, a', h, hlt⟩)
+  · rw [x.1]; exact h
+
+theorem covered_now (own : Key) (c : FState) (s : Key) : Covered own (fdeliver2 own c s) s := by
+  rcases fdeliver2_cases own c s with x | x
+  · rw [x]
+    by_cases hb : s ∈ c.blocked
+    · rw [fdeliver_blocked hb]; exact Or.inr (Or.inl hb)
+    · cases ha : c.applied with
+      | none => rw [fdeliver_none hb ha]; exact Or.inl rfl
+      | some a =>
+        by_cases e : a = s
+        · subst e; rw [fdeliver_same hb ha]; exact Or.inl ha
+        · by_cases hl : klt s a = true
+          · rw [fdeliver_better hb ha e hl]; exact Or.inl rfl
+          · rw [fdeliver_worse hb ha e hl]; exact Or.inr (Or.inl List.mem_cons_self)
+  · obtain ⟨h1, h2, _, a, ha, _, hlt⟩ := x
+    rw [h1]; exact Or.inr (Or.inr ⟨h2, a, ha, hlt⟩)
+
+theorem frun2_covers (own : Key) : ∀ (l : List Key) (c : FState), ∀ s ∈ l, Covered own (frun2 own c l) s := by
+  intro l
+  induction l with
+  | nil => intro c s hs; cases hs
+  | cons x l ih =>
+    intro c s hs
+    simp only [frun2, List.foldl_cons]
+    rcases List.mem_cons.mp hs with rfl | hs'
+    · have pers : ∀ (l : List Key) (c : FState), Covered own c s → Covered own (l.foldl (fdeliver2 own) c) s := by
+        intro l
+        induction l with
+        | nil => intro c h; exact h
+        | cons y l ih2 => intro c h; exact ih2 _ (covered_step own c s y h)
+      exact pers l _ (covered_now own c s)
+    · exact ih _ s hs'
+
+theorem frun2_applied_mem (own : Key) : ∀ (l : List Key) (c : FState) (a : Key), (frun2 own c l).applied = some a →
+    c.applied = some a ∨ a ∈ l := by
+  intro l
+  induction l with
+  | nil => intro c a h; exact Or.inl h
+  | cons x l ih =>
+    intro c a h
+    simp only [frun2, List.foldl_cons] at h
+    rcases ih (fdeliver2 own c x) a h with h1 | h1
+    · rcases fdeliver2_cases own c x with y | y
+      · rw [y] at h1
+        rcases frun_applied_mem [x] c a (by simpa [frun] using h1) with z | z
+        · exact Or.inl z
+        · exact Or.inr (by simp at z; rw [z]; exact List.mem_cons_self)
+      · rw [y.1] at h1; exact Or.inl h1
+    · exact Or.inr (List.mem_cons_of_mem _ h1)
+
+/-- the fork theorem with the own commit among the siblings -/
+theorem single_fork2 (own : Key) (l : List Key) (hne : l ≠ []) :
+    ∃ a, a ∈ l ∧ (frun2 own ⟨none, []⟩ l).applied = some a ∧
+      (∀ s ∈ l, a = s ∨ klt a s = true) ∧ (∀ s ∈ l, s ≠ a → s ≠ own → s ∈ (frun2 own ⟨none, []⟩ l).blocked) := by
+  have h0 : FInv ⟨none, []⟩ := by simp [FInv]
+  have hinv := finv_run2 own _ l h0
+  obtain ⟨x, hx⟩ := List.exists_mem_of_ne_nil l hne
+  have hcov := frun2_covers own l ⟨none, []⟩
+  cases ha : (frun2 own ⟨none, []⟩ l).applied with
+  | none =>
+    simp only [FInv, ha] at hinv
+    rcases hcov x hx with h | h | ⟨_, a, h, _⟩
+    · rw [ha] at h; cases h
+    · rw [hinv] at h; cases h
+    · rw [ha] at h; cases h
+  | some a =>
+    simp only [FInv, ha] at hinv
+    have hmem : a ∈ l := by
+      rcases frun2_applied_mem own l _ a ha with h | h
+      · cases h
+      · exact h
+    refine ⟨a, hmem, rfl, ?_, ?_⟩
+    · intro s hs
+      rcases hcov s hs with h | h | ⟨_, a', h, hlt⟩
+      · rw [ha] at h; exact Or.inl (Option.some.inj h)
+      · exact Or.inr (hinv.2 s h)
+      · rw [ha] at h; cases h; exact Or.inr hlt
+    · intro s hs hne' hno
+      rcases hcov s hs with h | h | ⟨ho, _⟩
+      · rw [ha] at h; exact absurd (Option.some.inj h).symm hne'
+      · exact h
+      · exact absurd ho hno
+
+
+/-! ## the committer: its own staged commit among the siblings, applied on relay echo -/
+
+def rec0 (c0 : Cl) : Rec := { state := 2, epoch := some (epochOf c0.g.path), hasGroup := true, mid := none }
+
+/-- the client's own staged commit (what `stageCommit` leaves behind) -/
+structure OwnSib (c0 : Cl) (o : Ev) : Prop where
+  path : o.path = c0.g.path
+  kind : ∃ b sw, o.kind = .commit b sw
+  own : (o.sender == c0.id) = true
+  ts : o.ts ≠ 0
+  pending : c0.g.pending = some o
+  record : getRec c0 o.n = some (rec0 c0)
+
+theorem OwnSib.com {c0 : Cl} {o : Ev} (h : OwnSib c0 o) : Com c0 o := ⟨h.path, h.kind, h.ts⟩
+
+theorem rbRec_rec0 (c0 : Cl) : rbRec (epochOf c0.g.path) (rec0 c0) = rec0 c0 := by
+  simp [rbRec, rbRec1, rbRec2, rec0]
+
+theorem step1_commit_own (retry : Cl → Option (Cl × Res)) (nx : Nat) (c : Cl) (e p : Ev) (b : Body) (sw : List Nat)
+    (hg : c.hasGroup = true) (ho : outerOpens (withSecret c).g e = true) (hk : e.kind = .commit b sw)
+    (hep : epochOf e.path = epochOf c.g.path) (hf : (e.sender == c.id) = true) (hp : c.g.pending = some p) :
+    step1 retry nx c e =
+      (setRec { mgrCreate (withSecret c) (epochOf c.g.path) e with
+                g := syncRec (ensureSecret (mergeCommit c.maxPast (withSecret c).g p)) } e.n
+        { state := 2, epoch := some (epochOf (syncRec (ensureSecret (mergeCommit c.maxPast (withSecret c).g p))).path), hasGroup := true, mid := none }, .commit) := by
+  have hmp : (withSecret c).maxPast = c.maxPast := rfl
+  unfold step1
+  simp [hg, ho, hk, hep, hf, hp, mgrCreate, hmp]
+
+/-- at the parent state the own commit's echo merges the pending commit (after taking the snapshot) -/
+theorem apply_parent_own (c0 : Cl) (hb : Base c0) (retry : Cl → Option (Cl × Res)) (nx : Nat) (c : Cl) (o : Ev)
+    (hf : PForm c0 c) (hs : OwnSib c0 o) (r : Rec) (hr : getRec c o.n = some r) (hst : r.state = 2) :
+    CForm c0 o (deliverOnce retry nx c o).1 ∧ (deliverOnce retry nx c o).1.recs = ainsert o.n (rec2 c0) c.recs := by
+  obtain ⟨b, sw, hk⟩ := hs.kind
+  have hwg : (withSecret c).g = gP c0 := hf.g
+  have hpath : c.g.path = c0.g.path := by
+    have := congrArg GState.path hf.g
+    rw [ensureSecret_path, gP_path] at this; exact this
+  have hpend : c.g.pending = some o := by
+    have := congrArg GState.pending hf.g
+    rw [(ensureSecret_fields c.g).2.2.2.2.2.1, gP, (ensureSecret_fields c0.g).2.2.2.2.2.1, hs.pending] at this
+    exact this
+  rw [deliverOnce_rec2 _ _ _ _ r hr hst,
+    step1_commit_own retry nx c o o b sw hf.hg (by rw [hwg]; exact outerOpens_parent c0 hb o hs.path) hk
+      (by rw [hs.path, hpath]) (by rw [hf.id]; exact hs.own) hpend]
+  obtain ⟨k, hk'⟩ := hf.mgr
+  have hchild : syncRec (ensureSecret (mergeCommit c.maxPast (withSecret c).g o)) = childG c0 o := by
+    rw [hwg, hf.mp]; rfl
+  refine ⟨⟨hf.id, hf.ret, hf.mp, hf.hg, ?_, ?_⟩, ?_⟩
+  · exact hchild
+  · simp only [setRec, mgrCreate, withSecret_mgr, hk', hwg, gP_path, hpath]
+    have hlen : (c0.mgr.drop k ++ [({ epoch := epochOf c0.g.path, commit := o.idnum, ts := o.ts, saved := gP c0 } : Snap)]).length - (withSecret c).retention ≤ (c0.mgr.drop k).length := by
+      have : (withSecret c).retention = c0.retention := hf.ret
+      have := hb.ret
+      simp only [List.length_append, List.length_singleton]
+      omega
+    refine ⟨k + ((c0.mgr.drop k ++ [({ epoch := epochOf c0.g.path, commit := o.idnum, ts := o.ts, saved := gP c0 } : Snap)]).length - (withSecret c).retention), ?_⟩
+    rw [drop_snoc _ _ _ hlen, List.drop_drop]
+    rfl
+  · have hep : epochOf (syncRec (ensureSecret (mergeCommit c.maxPast (withSecret c).g o))).path = epochOf c0.g.path + 1 := by
+      rw [hchild, (childG_facts c0 hb o hs.com).1, epochOf_snoc]
+    simp only [setRec, hep, rec2]
+    rfl
+
+/-- at child `a` the own commit, not better than `a`, is answered from its record: nothing changes -/
+theorem child_worse_own (c0 : Cl) (hb : Base c0) (retry : Cl → Option (Cl × Res)) (nx : Nat) (a o : Ev) (c : Cl)
+    (hf : CForm c0 a c) (ha : Com c0 a) (hs : OwnSib c0 o) (r : Rec) (hr : getRec c o.n = some r) (hst : r.state = 2)
+    (hw : klt (key o) (key a) = false) : (deliverOnce retry nx c o).1 = c := by
+  have hb' : isBetter c (epochOf c0.g.path) o = false := by rw [isBetter_child c0 hb a o c hf ha.ts]; exact hw
+  rw [deliverOnce_rec2 _ _ _ _ r hr hst, child_wrong c0 hb retry nx a o c hf ha hs.com]
+  simp only [wrongEpochCommit, hb', Bool.false_eq_true, if_false, notBetterResult, hr, hst, returnOwnCommit]
+  have hsy : syncRec c.g = c.g := by rw [hf.g]; exact (childG_stable c0 hb a ha).2
+  cases c
+  simp only at hsy ⊢
+  simp [hsy]
+
+/-- at child `a` the own commit, better than `a`: rollback (the snapshot holds the pending commit), merge -/
+theorem child_better_own (c0 : Cl) (hb : Base c0) (f nx : Nat) (a o : Ev) (c : Cl)
+    (hf : CForm c0 a c) (ha : Com c0 a) (hs : OwnSib c0 o) (hr : getRec c o.n = some (rec0 c0))
+    (hw : klt (key o) (key a) = true) :
+    CForm c0 o (deliverN (f + 1) nx c o).1 ∧
+    ∀ n, getRec (deliverN (f + 1) nx c o).1 n =
+      if n = o.n then some (rec2 c0) else (getRec c n).map (rbRec (epochOf c0.g.path)) := by
+  have hb' : isBetter c (epochOf c0.g.path) o = true := by rw [isBetter_child c0 hb a o c hf ha.ts]; exact hw
+  obtain ⟨c1, hrb, hp1, hrec1⟩ := rollback_child c0 hb a c hf
+  have hr1 : getRec c1 o.n = some (rec0 c0) := by rw [hrec1, hr]; simp [rbRec_rec0]
+  obtain ⟨retry', hret⟩ := deliverN_once f nx c1 o
+  have happ := apply_parent_own c0 hb retry' nx c1 o hp1 hs _ hr1 rfl
+  have heq : deliverN (f + 1) nx c o = deliverOnce retry' nx c1 o := by
+    show deliverOnce (fun c1 => some (deliverN f nx c1 o)) nx c o = _
+    rw [deliverOnce_rec2 _ _ _ _ _ hr rfl, child_wrong c0 hb _ nx a o c hf ha hs.com]
+    simp only [wrongEpochCommit, hb', if_true, hrb, hret]
+  rw [heq]
+  refine ⟨happ.1, ?_⟩
+  intro n
+  simp only [getRec] at hrec1 ⊢
+  rw [happ.2]
+  by_cases hn : n = o.n
+  · subst hn; simp [alookup_ainsert_self]
+  · rw [alookup_ainsert_ne _ _ _ _ hn, hrec1]; simp [hn]
+
+
+theorem fdeliver2_blocked {own : Key} {c : FState} {s : Key} (h : s ∈ c.blocked) : fdeliver2 own c s = c := by
+  simp [fdeliver2, h]
+theorem fdeliver2_none {own : Key} {c : FState} {s : Key} (h : ¬ s ∈ c.blocked) (ha : c.applied = none) :
+    fdeliver2 own c s = { c with applied := some s } := by
+  simp [fdeliver2, h, ha]
+theorem fdeliver2_same {own : Key} {c : FState} {s : Key} (h : ¬ s ∈ c.blocked) (ha : c.applied = some s) :
+    fdeliver2 own c s = c := by
+  simp [fdeliver2, h, ha]
+theorem fdeliver2_better {own : Key} {c : FState} {s a : Key} (h : ¬ s ∈ c.blocked) (ha : c.applied = some a)
+    (e : a ≠ s) (hl : klt s a = true) : fdeliver2 own c s = { applied := some s, blocked := a :: c.blocked } := by
+  simp [fdeliver2, h, ha, e, hl]
+theorem fdeliver2_worse {own : Key} {c : FState} {s a : Key} (h : ¬ s ∈ c.blocked) (ha : c.applied = some a)
+    (e : a ≠ s) (hl : ¬ klt s a = true) (ho : s ≠ own) : fdeliver2 own c s = { c with blocked := s :: c.blocked } := by
+  simp [fdeliver2, h, ha, e, hl, ho]
+
+/-- the siblings of the committer: its own staged commit `o` and foreign ones -/
+structure Sibs2 (c0 : Cl) (o : Ev) (S : List Ev) : Prop where
+  own : OwnSib c0 o
+  sib : ∀ e ∈ S, Sib c0 e
+  inj : ∀ e1 ∈ o :: S, ∀ e2 ∈ o :: S, (e1.n = e2.n ∨ key e1 = key e2) → e1 = e2
+  norec : ∀ e ∈ S, getRec c0 e.n = none
+
+theorem Sibs2.com {c0 : Cl} {o : Ev} {S : List Ev} (h : Sibs2 c0 o S) (e : Ev) (he : e ∈ o :: S) : Com c0 e := by
+  rcases List.mem_cons.mp he with rfl | he'
+  · exact h.own.com
+  · exact (h.sib e he').com
+
+structure Rel2 (c0 : Cl) (o : Ev) (S : List Ev) (c : Cl) (st : FState) : Prop where
+  par : st.applied = none → PForm c0 c
+  chi : ∀ k, st.applied = some k → ∃ a ∈ o :: S, key a = k ∧ CForm c0 a c ∧ getRec c a.n = some (rec2 c0)
+  blk : ∀ e ∈ o :: S, key e ∈ st.blocked → ∃ r, getRec c e.n = some r ∧ BlockedRec c0 r
+  fresh : ∀ e ∈ S, key e ∉ st.blocked → st.applied ≠ some (key e) → getRec c e.n = none
+  ownf : key o ∉ st.blocked → st.applied ≠ some (key o) → getRec c o.n = some (rec0 c0)
+
+theorem rel2_init (c0 : Cl) (hb : Base c0) (o : Ev) (S : List Ev) (hS : Sibs2 c0 o S) : Rel2 c0 o S c0 ⟨none, []⟩ where
+  par := fun _ => ⟨rfl, rfl, rfl, hb.hasGroup, rfl, ⟨0, by simp⟩⟩
+  chi := fun k h => by cases h
+  blk := fun e _ h => by cases h
+  fresh := fun e he _ _ => hS.norec e he
+  ownf := fun _ _ => hS.own.record
+
+theorem rel2_step (c0 : Cl) (hb : Base c0) (o : Ev) (S : List Ev) (hS : Sibs2 c0 o S) (c : Cl) (st : FState) (nx : Nat)
+    (h : Rel2 c0 o S c st) (_hi : FInv st) (e : Ev) (he : e ∈ o :: S) :
+    Rel2 c0 o S (deliver c e nx).1 (fdeliver2 (key o) st (key e)) := by
+  have hoT : o ∈ o :: S := List.mem_cons_self
+  have hnn : ∀ e' ∈ o :: S, key e' ≠ key e → e'.n ≠ e.n :=
+    fun e' he' hk x => hk (congrArg key (hS.inj e' he' e he (Or.inl x)))
+  have hST : ∀ e' ∈ S, e' ∈ o :: S := fun e' h' => List.mem_cons_of_mem _ h'
+  by_cases hbl : key e ∈ st.blocked
+  · obtain ⟨r, hr, hbr⟩ := h.blk e he hbl
+    obtain ⟨retry, hd⟩ := deliverN_once 3 nx c e
+    rw [fdeliver2_blocked hbl, deliver, hd, deliverOnce_blocked retry nx c e r hr hbr.1]
+    exact h
+  · cases hap : st.applied with
+    | none =>
+      obtain ⟨retry, hd⟩ := deliverN_once 3 nx c e
+      have happ : CForm c0 e (deliverOnce retry nx c e).1 ∧ (deliverOnce retry nx c e).1.recs = ainsert e.n (rec2 c0) c.recs := by
+        rcases List.mem_cons.mp he with rfl | heS
+        · exact apply_parent_own c0 hb retry nx c e (h.par hap) hS.own _ (h.ownf hbl (by rw [hap]; simp)) rfl
+        · exact apply_parent c0 hb retry nx c e (h.par hap) (hS.sib e heS) (h.fresh e heS hbl (by rw [hap]; simp))
+      obtain ⟨hcf, hrecs⟩ := happ
+      rw [fdeliver2_none hbl hap, deliver, hd]
+      have hother : ∀ e' ∈ o :: S, key e' ≠ key e → getRec (deliverOnce retry nx c e).1 e'.n = getRec c e'.n := by
+        intro e' he' hk
+        simp only [getRec, hrecs]; exact alookup_ainsert_ne _ _ _ _ (hnn e' he' hk)
+      refine ⟨(fun x => by cases x), ?_, ?_, ?_, ?_⟩
+      · intro k hk
+        cases hk
+        exact ⟨e, he, rfl, hcf, by simp only [getRec, hrecs]; exact alookup_ainsert_self _ _ _⟩
+      · intro e' he' hb'
+        have hk : key e' ≠ key e := fun x => hbl (x ▸ hb')
+        rw [hother e' he' hk]; exact h.blk e' he' hb'
+      · intro e' he' hb' hna
+        have hk : key e' ≠ key e := fun x => hna (by rw [x])
+        rw [hother e' (hST e' he') hk]; exact h.fresh e' he' hb' (by rw [hap]; simp)
+      · intro hb' hna
+        have hk : key o ≠ key e := fun x => hna (by rw [x])
+        rw [hother o hoT hk]; exact h.ownf hb' (by rw [hap]; simp)
+    | some ka =>
+      obtain ⟨a, haT, hka, hcf, hra⟩ := h.chi ka hap
+      have hca := hS.com a haT
+      by_cases hsame : ka = key e
+      · have : a = e := hS.inj a haT e he (Or.inr (hka.trans hsame))
+        subst this
+        obtain ⟨retry, hd⟩ := deliverN_once 3 nx c a
+        rw [fdeliver2_same hbl (by rw [hap, hsame]), deliver, hd, child_same c0 hb retry nx a c hcf hca hra]
+        exact h
+      · have hne : a ≠ e := fun x => hsame (by rw [← hka, x])
+        have hnap : st.applied ≠ some (key e) := by rw [hap]; intro x; exact hsame (Option.some.inj x)
+        by_cases hlt : klt (key e) ka = true
+        · -- better
+          have hbet : CForm c0 e (deliverN 3 nx c e).1 ∧ ∀ n, getRec (deliverN 3 nx c e).1 n =
+              if n = e.n then some (rec2 c0) else (getRec c n).map (rbRec (epochOf c0.g.path)) := by
+            rcases List.mem_cons.mp he with rfl | heS
+            · exact child_better_own c0 hb 2 nx a e c hcf hca hS.own (h.ownf hbl hnap) (by rw [hka]; exact hlt)
+            · exact child_better c0 hb 2 nx a e c hcf hca (hS.sib e heS) (h.fresh e heS hbl hnap) (by rw [hka]; exact hlt)
+          obtain ⟨hcf', hrec'⟩ := hbet
+          rw [fdeliver2_better hbl hap hsame hlt]
+          show Rel2 c0 o S (deliverN 3 nx c e).1 _
+          refine ⟨(fun x => by cases x), ?_, ?_, ?_, ?_⟩
+          · intro k hk
+            cases hk
+            exact ⟨e, he, rfl, hcf', by rw [hrec']; simp⟩
+          · intro e' he' hb'
+            have hk : key e' ≠ key e := by
+              intro x
+              rcases List.mem_cons.mp hb' with y | y
+              · exact hsame (y.symm.trans x)
+              · exact hbl (x ▸ y)
+            rw [hrec', if_neg (hnn e' he' hk)]
+            rcases List.mem_cons.mp hb' with y | y
+            · have : e' = a := hS.inj e' he' a haT (Or.inr (y.trans hka.symm))
+              subst this
+              rw [hra]
+              exact ⟨_, rfl, rbRec_blocked c0 _ ⟨rfl, rfl⟩⟩
+            · obtain ⟨r, hr', hbr⟩ := h.blk e' he' y
+              rw [hr']
+              exact ⟨_, rfl, rbRec_blocked c0 r ⟨hbr.2.1, hbr.2.2⟩⟩
+          · intro e' he' hb' hna
+            have hk : key e' ≠ key e := fun x => hna (by rw [x])
+            have h1 : key e' ∉ st.blocked := fun x => hb' (List.mem_cons_of_mem _ x)
+            have h2 : st.applied ≠ some (key e') := by
+              rw [hap]; intro x; exact hb' (by rw [← Option.some.inj x]; exact List.mem_cons_self)
+            rw [hrec', if_neg (hnn e' (hST e' he') hk), h.fresh e' he' h1 h2]; rfl
+          · intro hb' hna
+            have hk : key o ≠ key e := fun x => hna (by rw [x])
+            have h1 : key o ∉ st.blocked := fun x => hb' (List.mem_cons_of_mem _ x)
+            have h2 : st.applied ≠ some (key o) := by
+              rw [hap]; intro x; exact hb' (by rw [← Option.some.inj x]; exact List.mem_cons_self)
+            rw [hrec', if_neg (hnn o hoT hk), h.ownf h1 h2]
+            simp [rbRec_rec0]
+        · -- worse
+          have hlt' : klt (key e) (key a) = false := by rw [hka]; simpa using hlt
+          obtain ⟨retry, hd⟩ := deliverN_once 3 nx c e
+          rcases List.mem_cons.mp he with rfl | heS
+          · -- the own commit: answered from its record, nothing changes
+            rw [fdeliver2_own_worse hbl hap hsame hlt, deliver, hd,
+              child_worse_own c0 hb retry nx a e c hcf hca hS.own _ (h.ownf hbl hnap) rfl hlt']
+            exact h
+          · have hko : key e ≠ key o := by
+              intro x
+              have := hS.inj e he o hoT (Or.inr x)
+              subst this
+              have h1 := (hS.sib e heS).foreign
+              rw [hS.own.own] at h1; cases h1
+            obtain ⟨hcf', hrecs⟩ := child_worse c0 hb retry nx a e c hcf hca (hS.sib e heS) (h.fresh e heS hbl hnap) hlt'
+            rw [fdeliver2_worse hbl hap hsame hlt hko, deliver, hd]
+            have hother : ∀ e' ∈ o :: S, key e' ≠ key e → getRec (deliverOnce retry nx c e).1 e'.n = getRec c e'.n := by
+              intro e' he' hk
+              simp only [getRec, hrecs]; exact alookup_ainsert_ne _ _ _ _ (hnn e' he' hk)
+            refine ⟨(fun x => by rw [hap] at x; cases x), ?_, ?_, ?_, ?_⟩
+            · intro k hk
+              rw [hap] at hk; cases hk
+              exact ⟨a, haT, hka, hcf', by rw [hother a haT (by rw [hka]; exact hsame)]; exact hra⟩
+            · intro e' he' hb'
+              by_cases hk : key e' = key e
+              · have : e' = e := hS.inj e' he' e he (Or.inr hk)
+                subst this
+                refine ⟨rec3 c0, by simp only [getRec, hrecs]; exact alookup_ainsert_self _ _ _, ?_⟩
+                simp [BlockedRec, rec3]
+              · rw [hother e' he' hk]
+                rcases List.mem_cons.mp hb' with y | y
+                · exact absurd y hk
+                · exact h.blk e' he' y
+            · intro e' he' hb' hna
+              have hk : key e' ≠ key e := fun x => hb' (by rw [x]; exact List.mem_cons_self)
+              rw [hother e' (hST e' he') hk]
+              exact h.fresh e' he' (fun x => hb' (List.mem_cons_of_mem _ x)) hna
+            · intro hb' hna
+              rw [hother o hoT (fun x => hko x.symm)]
+              exact h.ownf (fun x => hb' (List.mem_cons_of_mem _ x)) hna
+
+theorem rel2_run (c0 : Cl) (hb : Base c0) (o : Ev) (S : List Ev) (hS : Sibs2 c0 o S) (nx : Nat) (l : List Ev) :
+    ∀ (c : Cl) (st : FState), Rel2 c0 o S c st → FInv st → (∀ e ∈ l, e ∈ o :: S) →
+      Rel2 c0 o S (l.foldl (fun c e => (deliver c e nx).1) c) (frun2 (key o) st (l.map key)) := by
+  induction l with
+  | nil => intro c st h _ _; exact h
+  | cons e t ih =>
+    intro c st h hi hl
+    simp only [List.foldl_cons, List.map_cons, frun2]
+    exact ih _ _ (rel2_step c0 hb o S hS c st nx h hi e (hl e List.mem_cons_self)) (finv_deliver2 _ st _ hi)
       (fun x hx => hl x (List.mem_cons_of_mem _ hx))
 
 
